@@ -67,6 +67,7 @@ def check(impl, mstate, born, out, where):
     """compare the real TorState with the model state.  born: sid -> 'event' | 'snapshot'"""
     st = impl.state
     circs, strms = mstate
+    strms = M.live_streams(mstate)        # a stream that FAILED is gone although Tor still owes its CLOSED
     if set(st.circuits.keys()) != set(circs.keys()):
         extra = sorted(set(st.circuits) - set(circs))
         missing = sorted(set(circs) - set(st.circuits))
@@ -169,6 +170,8 @@ def born_after(born, label):
     if label.startswith('S'):
         sid = int(label[1])
         kind = label.split('-', 1)[1]
+        if kind == 'CLOSED-after-FAILED':
+            return b
         if kind == 'NEW':
             b[sid] = 'event'
             b[('src', sid)] = True
@@ -203,7 +206,7 @@ def run_state(idx, mode, acc):
             where = 'after events %s' % '/'.join(p[0] for p in path[-4:])
         else:
             impl = Impl(w, M.snapshot(mstate))
-            born = dict((sid, 'snapshot') for sid in mstate[1])
+            born = dict((sid, 'snapshot') for sid in M.live_streams(mstate))
             where = 'after snapshot of state #%d' % idx
         if impl.boot != ['ok']:
             viol.append(('bootstrap', mode, '%s: TorState bootstrap did not complete: %r' % (where, impl.boot)))
@@ -227,7 +230,7 @@ def run_state(idx, mode, acc):
                     born = born_after(born, l2)
             else:
                 impl = Impl(w, M.snapshot(mstate))
-                born = dict((sid, 'snapshot') for sid in mstate[1])
+                born = dict((sid, 'snapshot') for sid in M.live_streams(mstate))
             w.trap.errors[:] = []
             impl.event(ev, line)
             born = born_after(born, label)
